@@ -231,7 +231,7 @@ fn onefail_pass(env: &mut Env, e: &'static Entry, c: &mut Counts) -> bool {
 
 fn group_sub<'a>(kind: &'static str, src: &'static str, es: Vec<&'static Entry>) -> SubCheck<'a> {
     let small = super::int_info(src).map_or(false, |(b, _)| b <= 16);
-    let shards = if kind == "cast" || kind == "tryfrom" || kind == "repack" { 2 } else { 1 };
+    let shards = if kind == "cast" || kind == "tryfrom" || kind == "repack" { 4 } else { 2 };
     SubCheck::new(
         format!("{}/{}/{}", kind, src, VARIANT),
         shards,
